@@ -40,7 +40,6 @@ def run(ctx) -> None:
     ctx.rule("R10", "calendar parts 'taken from the given date': an unusable --date (or --date together with --pin-date) is fatal, not merely logged")
     shapes.errors_are_fatal(ctx, "R10", "cli._validate_date", 2)
     ctx.rule("R11", "parts not addressed by a flag are unchanged / TAG carried over: the reader hands every captured non-calendar value (and the other tag form) to the bump unchanged (C02's reader rule)")
-    field_order_rule(ctx, "R3")
     from checks.c02 import reader_fold_rule, parsed_quarter_rule
     reader_fold_rule(ctx, "R11")
     parsed_quarter_rule(ctx, "R11", "v2version.parse_field_values_to_cinfo")
@@ -239,7 +238,7 @@ def run(ctx) -> None:
               "v2version._reset_rollover_fields: field order not taken from the pattern", "", loc=rr.loc())
     ppf = prog.function("v2version._parse_pattern_fields")
     rets = [n for n in walk_no_nested(ppf.node) if isinstance(n, ast.Return)]
-    ok = len(rets) == 1 and "sorted(fields_by_index.items())" in unparse(rets[0])
+    ok = field_order_rule(ctx, "R3") or (len(rets) == 1 and "sorted(fields_by_index.items())" in unparse(rets[0]))
     ctx.check("R3", ok, "_parse_pattern_fields returns fields sorted by (segment, position)", "v2version._parse_pattern_fields: fields not ordered left to right",
               unparse(rets[0]) if rets else "", loc=ppf.loc())
 
@@ -481,7 +480,7 @@ def none_filter_rule(ctx, eng: str, rule: str) -> bool:
     return False
 
 
-def field_order_rule(ctx, rule: str) -> None:
+def field_order_rule(ctx, rule: str) -> bool:
     """_parse_pattern_fields evaluated on four segment lists: the fields of a pattern in the order of the first occurrence of
     each part, segment by segment, left to right (a part used twice counts where it stands first)."""
     from sa.model import CannotFold, EvalError
@@ -513,7 +512,8 @@ def field_order_rule(ctx, rule: str) -> None:
                 wrong.append(f"segments {segments}: {got}, expected {want}")
     except (CannotFold, TypeError, AttributeError, KeyError, ValueError, IndexError) as ex:
         ctx.observe(f"_parse_pattern_fields not evaluated ({type(ex).__name__}: {str(ex)[:80]})")
-        return
+        return False
     ctx.check(rule, not wrong, f"_parse_pattern_fields: fields in the order the parts stand in the pattern ({n} patterns evaluated)",
               "v2version._parse_pattern_fields: the reset order is not the left-to-right order of the parts", "; ".join(wrong[:2]) + " - a part right of a changed part is not reset",
               loc=pf.loc(), witness={"version": "25.3.2025", "pattern": "YY.MAJOR.YYYY"})
+    return True
